@@ -26,6 +26,38 @@ def solver_helpers(prog):
     return list(out.values())
 
 
+def sentinel_constants(ctx, rule):
+    """A previous-joints constant whose first entry is NaN is a sentinel by the solver's own test (`prev[0].is_nan()` selects the
+    constraint centres).  The 5-DOF continuation still reads entry 5 of what it was given as the J6 to deliver, and sorting and
+    normalisation never see the other entries - so a sentinel must be NaN in entry 0 only: with NaN in entry 5 every 5-DOF
+    candidate carries a NaN joint, fails the FK gate and the answer is empty."""
+    import math
+    from . import util as U
+    prog = ctx.prog
+    n = 0
+    for path, c in prog.consts.items():
+        t = prog.const_term(path)
+        if not (isinstance(t, tuple) and t[0] == 'agg' and t[1] == 'array' and len(t) == 8 and 'f64' in c.local_ty(0)):
+            t2 = strip(t) if t is not None else None
+            # [x; 6]
+            if isinstance(t2, tuple) and t2[0] == 'repeat' and 'f64; 6' in c.local_ty(0):
+                v = U.const_val(t2[1])
+                if isinstance(v, float) and v != v:
+                    n += 1
+                    ctx.violation(rule, 'sentinel/%s' % path.split('::')[-1], c.where(0), path,
+                                  'the sentinel constant is NaN in every entry: the 5-DOF continuation takes entry 5 as the requested J6')
+            continue
+        vals = [U.const_val(x) for x in t[2:]]
+        if not (isinstance(vals[0], float) and vals[0] != vals[0]):
+            continue
+        n += 1
+        bad = [i for i, v in enumerate(vals) if i > 0 and not (isinstance(v, (int, float)) and math.isfinite(v))]
+        ctx.check(not bad, rule, 'sentinel/%s' % path.split('::')[-1], c.where(0), path,
+                  'entries %s of the sentinel constant are not finite: the 5-DOF continuation takes entry 5 as the requested J6 (a NaN there empties the answer)' % bad,
+                  found=str(vals), detail='NaN in entry 0 only')
+    ctx.floor(rule + ' sentinel constants', n, 1)
+
+
 def truth(key, edges=None):
     """Truth value of a bool switch edge key (0 -> False, 1/otherwise -> True)."""
     if key == 0:
